@@ -7,10 +7,17 @@
    [C05_distribution_complete] is about the rule system of Model/C05_ChainKeyAnn.v; that
    group_context.go implements these rules is checked by the distribution stream of the harness
    (real GroupContexts, converged logs must be quiescent for the rule system).
+   The receiving side (which of the announcements in the log a device registers) is
+   Model/C05_Receive.v: [C05_late_device_complete] holds for every split of the log into what the
+   device held when it was activated and what arrived afterwards; the two paths of
+   group_context.go are tied to it by the generated description of their statements
+   ([C05_receiving_paths_unconditional]) and by the per-device cases of the distribution stream.
    "Registering it makes exactly the sender's subsequent messages openable" is C02
    (C02_store_refines_ratchet / C02_never_before_c) applied to the decrypted (counter, chain). *)
 From Coq Require Import List NArith Bool.
-From Wesh Require Import Model.Store Model.C05_ChainKeyAnn Proofs.C05_ChainKeyAnn.
+From Coq Require Import Permutation String.
+From Wesh Require Import Model.Store Model.C05_ChainKeyAnn Proofs.C05_ChainKeyAnn Model.C05_Receive Proofs.C05_Receive.
+From Wesh Require Import Gen.Distribution GenFacts.DistributionFacts.
 Import ListNotations.
 Open Scope N_scope.
 
@@ -49,13 +56,79 @@ Theorem C05_distribution_complete :
     knows log d s = true.
 Proof. exact distribution_complete. Qed.
 
+(* the receiving side: a device registers exactly the announcements addressed to its member, wherever
+   its activation falls in the history and in whatever order the rest arrives *)
+Theorem C05_registered_exact :
+  forall me before after s,
+    In s (registered me before after) <-> In (ChainKeyFor s me) (before ++ after).
+Proof. exact registered_exact. Qed.
+
+Theorem C05_registered_split_independent :
+  forall me b1 a1 b2 a2 s,
+    Permutation (b1 ++ a1) (b2 ++ a2) ->
+    (In s (registered me b1 a1) <-> In s (registered me b2 a2)).
+Proof. exact registered_split_independent. Qed.
+
+(* ... so that at quiescence a device activated at ANY point of the history (a late second device of a
+   member, a device that was offline) holds the key of every announced device *)
+Theorem C05_late_device_complete :
+  forall me d m' s before after,
+    quiescent (before ++ after) = true ->
+    In (MemberDevice me d) (before ++ after) -> member_of (before ++ after) d = Some me ->
+    In (MemberDevice m' s) (before ++ after) ->
+    holds me before after s = true.
+Proof. exact late_device_complete. Qed.
+
+(* why neither path may look at the sender's device announcement: a history path that skips the
+   announcements of not yet announced senders loses a key even when the live path defers them
+   (a joining device publishes its chain keys BEFORE it announces itself); deferring in both is
+   complete again *)
+Theorem C05_guarded_scan_loses_a_key :
+  exists me before after s m,
+    In (ChainKeyFor s me) (before ++ after) /\ In (MemberDevice m s) (before ++ after) /\
+    ~ In s (registered_guarded me before after) /\ In s (registered me before after).
+Proof. exact guarded_scan_loses_a_key. Qed.
+
+Theorem C05_deferred_complete :
+  forall me before after s m,
+    In (ChainKeyFor s me) (before ++ after) -> In (MemberDevice m s) (before ++ after) ->
+    In s (registered_deferred me before after).
+Proof. exact deferred_complete. Qed.
+
+(* the CURRENT source (generated): both paths hand every announcement the filter lets through to
+   RegisterChainKey, and the filter rejects by type, decoding and destination member only *)
+Theorem C05_receiving_paths_unconditional :
+  (scan_skips = ["metadata==nil";
+                 "errcode.Is(err,errcode.ErrCode_ErrInvalidInput)||errcode.Is(err,errcode.ErrCode_ErrGroupSecretOtherDestMember)";
+                 "err!=nil"] /\
+   live_ignored_errors = ["errcode.ErrCode_ErrInvalidInput"; "errcode.ErrCode_ErrGroupSecretOtherDestMember"] /\
+   List.nth 2 live_chain_key_steps "" = "if err = gc.SecretStore().RegisterChainKey(gc.ctx,gc.Group(),senderPublicKey,encryptedDeviceChainKey); err!=nil" /\
+   List.nth 4 filter_rejects "" = "!localMemberPublicKey.Equals(destMemberPubKey) => errcode.ErrCode_ErrGroupSecretOtherDestMember" /\
+   List.length filter_rejects = 5%nat)%string.
+Proof.
+  destruct history_path_registers_all_addressed as [H1 _].
+  destruct live_path_registers_all_addressed as [H2 H3].
+  pose proof filter_rejects_by_destination_only as H4.
+  rewrite H1, H2, H3, H4. repeat split; reflexivity.
+Qed.
+
 (* non-vacuity: three members (one with two devices) joining in some order reach quiescence
    after the announcements are sent, and then everybody knows everybody *)
 Example C05_nonvacuous :
   let log0 := [MemberDevice 1 11; MemberDevice 2 21; MemberDevice 1 12; MemberDevice 3 31] in
   let log := saturate 20 log0 in
-  quiescent log0 = false /\ quiescent log = true /\ length log = 16%nat /\ knows log 12 31 = true.
+  quiescent log0 = false /\ quiescent log = true /\ List.length log = 16%nat /\ knows log 12 31 = true.
 Proof. vm_compute. repeat split. Qed.
+
+(* non-vacuity of the late-device theorem: device 12 of member 1 is activated holding the chain key of
+   the joining device 21 but not yet its announcement; the saturated log is quiescent and 12 holds 21 *)
+Example C05_late_device_nonvacuous :
+  let before := [MemberDevice 1 11; ChainKeyFor 11 1; ChainKeyFor 21 1] in
+  let after := skipn 3 (saturate 20 (before ++ [MemberDevice 2 21; MemberDevice 1 12])) in
+  quiescent (before ++ after) = true /\ In (MemberDevice 1 12) (before ++ after) /\
+  member_of (before ++ after) 12 = Some 1 /\ In (MemberDevice 2 21) (before ++ after) /\
+  holds 1 before after 21 = true.
+Proof. vm_compute. repeat split; tauto. Qed.
 
 Print Assumptions C05_roundtrip.
 Print Assumptions C05_opens_iff.
@@ -64,3 +137,9 @@ Print Assumptions C05_wrong_sender.
 Print Assumptions C05_wrong_group.
 Print Assumptions C05_altered_rejected.
 Print Assumptions C05_distribution_complete.
+Print Assumptions C05_registered_exact.
+Print Assumptions C05_registered_split_independent.
+Print Assumptions C05_late_device_complete.
+Print Assumptions C05_guarded_scan_loses_a_key.
+Print Assumptions C05_deferred_complete.
+Print Assumptions C05_receiving_paths_unconditional.
